@@ -13,6 +13,8 @@ import (
 	"encoding/json"
 	"fmt"
 	"os"
+	"sort"
+	"strconv"
 	"strings"
 
 	"github.com/RoaringBitmap/roaring"
@@ -24,15 +26,17 @@ import (
 var damageKinds = []string{
 	"del-bucket", "del-S", "S-garbage", "S-trunc", "S-empty", "del-I", "I-0", "I-1", "I-2", "I-3", "I-5", "I-8",
 	"V-garbage", "V-trunc", "V-empty", "X-unknown-key", "X-short-V-key", "X-long-V-key",
-	"V-del", // one bitmap key removed: the schema names a value that has no bitmap (not listed by the statement: no panic, no hang, lock released whatever the outcome)
+	"X-unknown-V-garbage", // a well-formed bitmap key the schema does not know, with an undecodable value
+	"S-swap",              // the schema replaced by a decodable one that lacks a column
+	"V-del",               // one bitmap key removed: the schema names a value that has no bitmap (not listed by the statement: no panic, no hang, lock released whatever the outcome)
 }
 
 var specialFiles = []string{"empty-bbolt", "zero-byte", "garbage", "directory", "nonexistent", "open-error"}
 
 type OOp struct {
-	Kind string `json:"kind"` // open | close | close2
+	Kind string `json:"kind"`          // open | close | close2
 	Opt  string `json:"opt,omitempty"` // ondemand | preload | cached
-	File int    `json:"file"`  // 0 = the damaged/special file, 1 = an intact index
+	File int    `json:"file"`          // 0 = the damaged/special file, 1 = an intact index
 }
 
 type C15Case struct {
@@ -64,6 +68,11 @@ func genC15(c *Ctx) any {
 	cs := &C15Case{}
 	cs.Data.Spec = GenDataSpec(c.Rand("data"), r.Range(1, 40), false)
 	subs := damageSubsets()
+	if c.Index >= len(subs)+len(specialFiles) && r.Chance(1, 5) {
+		// more than a thousand bitmaps: batched or pipelined loading
+		cs.Data.Spec.N = []int{300, 1100, 1500, 2600}[r.Intn(4)]
+		cs.Data.Spec.Unique = "u"
+	}
 	switch {
 	case c.Index < len(subs):
 		cs.Damage = subs[c.Index] // exhaustive slice: every subset of size <= 2
@@ -75,7 +84,12 @@ func genC15(c *Ctx) any {
 		// intact file: open/close histories only
 	default:
 		for i, n := 0, r.Range(1, 3); i < n; i++ {
-			cs.Damage = append(cs.Damage, damageKinds[r.Intn(len(damageKinds))])
+			k := damageKinds[r.Intn(len(damageKinds))]
+			if strings.HasPrefix(k, "V-") && r.Chance(2, 3) {
+				// which bitmap (in key order): first, middle, last, the 1000th and later, the 257th from the end
+				k += "@" + []string{"mid", "last", "1000", "1001", "1200", "-257", "-300", "-2", "1", "255", "256"}[r.Intn(11)]
+			}
+			cs.Damage = append(cs.Damage, k)
 		}
 	}
 	opts := []string{"ondemand", "preload", "cached"}
@@ -137,14 +151,45 @@ func applyDamage(path string, kinds []string) (applied []string, err error) {
 			if b == nil {
 				continue
 			}
+			k, pos, _ := strings.Cut(k, "@")
 			firstV := func() []byte {
+				var keys [][]byte
 				c := b.Cursor()
 				for key, _ := c.Seek([]byte{'V'}); key != nil && key[0] == 'V'; key, _ = c.Next() {
-					if len(key) == 9 {
-						return append([]byte(nil), key...)
+					if len(key) == 9 && !bytes.Equal(key, plantedKey) {
+						keys = append(keys, append([]byte(nil), key...))
+						if pos == "" {
+							break
+						}
 					}
 				}
-				return nil
+				if len(keys) == 0 {
+					return nil
+				}
+				i := 0
+				switch pos {
+				case "", "first":
+				case "mid":
+					i = len(keys) / 2
+				case "last":
+					i = len(keys) - 1
+				default:
+					n, err := strconv.Atoi(pos)
+					if err != nil {
+						return nil
+					}
+					if n < 0 {
+						n += len(keys)
+					}
+					if n < 0 {
+						n = 0
+					}
+					if n >= len(keys) {
+						n = len(keys) - 1
+					}
+					i = n
+				}
+				return keys[i]
 			}
 			// a damage only counts as applied if the part it damages exists in this file
 			// format (a tree that stores its header under other keys is not accused of
@@ -197,6 +242,22 @@ func applyDamage(path string, kinds []string) (applied []string, err error) {
 				if key := firstV(); key != nil {
 					err, did = b.Delete(key), true
 				}
+			case "X-unknown-V-garbage":
+				err, did = b.Put(plantedKey, []byte{0xde, 0xad, 0xbe, 0xef, 0x00, 0x01, 0x02}), true
+			case "S-swap":
+				var ms mirrorSchema
+				if sv := b.Get([]byte{'S'}); sv != nil && gob.NewDecoder(bytes.NewReader(sv)).Decode(&ms) == nil && len(ms.Columns) > 0 {
+					var names []string
+					for n := range ms.Columns {
+						names = append(names, n)
+					}
+					sort.Strings(names)
+					delete(ms.Columns, names[len(names)/2])
+					var buf bytes.Buffer
+					if gob.NewEncoder(&buf).Encode(&ms) == nil {
+						err, did = b.Put([]byte{'S'}, buf.Bytes()), true
+					}
+				}
 			case "X-unknown-key":
 				err, did = b.Put([]byte("Zunknown"), []byte("x")), true
 			case "X-short-V-key":
@@ -208,6 +269,9 @@ func applyDamage(path string, kinds []string) (applied []string, err error) {
 				return err
 			}
 			if did {
+				if pos != "" {
+					k += "@" + pos
+				}
 				applied = append(applied, k)
 			}
 		}
@@ -215,6 +279,9 @@ func applyDamage(path string, kinds []string) (applied []string, err error) {
 	})
 	return applied, err
 }
+
+// plantedKey: a well-formed bitmap key that (64-bit hash collisions aside) no schema knows.
+var plantedKey = []byte{'V', 0xff, 0xfe, 0xfd, 0xfc, 0xfb, 0xfa, 0xf9, 0xf8}
 
 // mustRejectByKind: the damages the statement says make a file "not a complete index".
 func mustRejectByKind(applied []string) (bool, string) {
@@ -253,8 +320,8 @@ func inspect(path string) (mustErr, mustErrPreload bool, why string) {
 		}
 		c := b.Cursor()
 		for key, val := c.Seek([]byte{'V'}); key != nil && key[0] == 'V'; key, val = c.Next() {
-			if len(key) != 9 {
-				continue
+			if len(key) != 9 || bytes.Equal(key, plantedKey) {
+				continue // a bitmap no column refers to: whether preloading looks at it is the implementation's business
 			}
 			if _, err := roaring.New().FromBuffer(append([]byte(nil), val...)); err != nil {
 				mustErrPreload = true
@@ -327,6 +394,11 @@ func runC15(c *Ctx, body json.RawMessage) *Verdict {
 		_, mustErrPre, w2 = inspect(paths[0])
 		mustErr, why = mustRejectByKind(applied)
 		mustErrPre = mustErr || (mustErrPre && strings.Contains(w2, "undecodable bitmap"))
+		for _, k := range applied {
+			if k == "S-swap" && !mustErr {
+				mustErrPre = false // the damaged bitmap may belong to the column the schema no longer names
+			}
+		}
 		why += " " + w2
 	case "empty-bbolt":
 		mustErr, mustErrPre, why = true, true, "bbolt file without data bucket"
@@ -338,7 +410,11 @@ func runC15(c *Ctx, body json.RawMessage) *Verdict {
 		}
 	}
 	for _, k := range applied {
-		v.Count("fault_damage_"+k, 1)
+		base, pos, _ := strings.Cut(k, "@")
+		v.Count("fault_damage_"+base, 1)
+		if n, err := strconv.Atoi(pos); err == nil && (n >= 1000 || n <= -257) && len(rows) > 1000 {
+			v.Count("probe_damage_deep_in_a_large_index", 1)
+		}
 	}
 	if cs.Special != "" {
 		v.Count("fault_special_"+cs.Special, 1)
